@@ -94,17 +94,102 @@ fn edge_str(r: &mut Rng) -> String {
 type F2 = FBig<mode::Zero, 2>;
 type F10 = FBig<mode::HalfAway, 10>;
 
-fn edge_float(r: &mut Rng) -> F10 {
+fn edge_float<Rm: dashu_float::round::Round, const B: dashu_int::Word>(r: &mut Rng) -> FBig<Rm, B> {
     match r.below(8) {
-        0 => F10::ZERO,
-        1 => F10::ONE,
-        2 => F10::NEG_ONE,
-        3 => F10::INFINITY,
-        4 => F10::NEG_INFINITY,
-        5 => F10::from_parts(ibig(r.bool(), &gen::small_mag(r)), r.range(-50, 50) as isize),
-        6 => F10::from_parts(IBig::from(r.range(-9, 9)), r.range(-400, 400) as isize),
-        _ => F10::from_parts(ibig(r.bool(), &gen::small_mag(r)), r.range(-5, 5) as isize).with_precision(1 + r.usize(30)).value(),
+        0 => FBig::<Rm, B>::ZERO,
+        1 => FBig::<Rm, B>::ONE,
+        2 => FBig::<Rm, B>::NEG_ONE,
+        3 => FBig::<Rm, B>::INFINITY,
+        4 => FBig::<Rm, B>::NEG_INFINITY,
+        5 => FBig::<Rm, B>::from_parts(ibig(r.bool(), &gen::small_mag(r)), r.range(-50, 50) as isize),
+        6 => FBig::<Rm, B>::from_parts(IBig::from(r.range(-9, 9)), r.range(-400, 400) as isize),
+        _ => FBig::<Rm, B>::from_parts(ibig(r.bool(), &gen::small_mag(r)), r.range(-5, 5) as isize).with_precision(1 + r.usize(30)).value(),
     }
+}
+
+
+/// the float API surface at its domain edges, for one (rounding mode, base) instantiation
+fn float_surface<Rm: dashu_float::round::Round, const B: dashu_int::Word>(m: &mut Mon, r: &mut Rng, sel: u64) {
+    let must = |c: bool| if c { Exp::Must } else { Exp::Never };
+    // floats: infinities must panic in arithmetic, unlimited precision, domains
+    let (x, y) = (edge_float::<Rm, B>(r), edge_float::<Rm, B>(r));
+    let any_inf = x.repr().is_infinite() || y.repr().is_infinite();
+    let which = sel - 20 + 8 * r.below(2);
+    let d = || format!("float base={} op#{} x={:?} (prec {}) y={:?} (prec {})", B, which, x.repr(), x.precision(), y.repr(), y.precision());
+    let hh = dvh::rng::hash_str(&format!("{:?}{:?}{}", x.repr(), y.repr(), which));
+    let fuel = 200_000 + 4_000 * x.precision().max(y.precision()) as u64;
+    let unlimited = x.precision() == 0 || (which < 4 && x.precision().max(y.precision()) == 0);
+    let ctx_unl = x.precision().max(y.precision()) == 0;
+    m.check("float", &format!("b{}/op{}", B, which), Some(hh), &d, || match which {
+        0 => judge(must(any_inf), fuel, "add", || format!("{:?}", (&x + &y).repr())),
+        1 => judge(must(any_inf), fuel, "sub", || format!("{:?}", (&x - &y).repr())),
+        2 => judge(must(any_inf), fuel, "mul", || format!("{:?}", (&x * &y).repr())),
+        3 => {
+            // division: by zero and on infinities must panic; at unlimited precision it may panic (inexact) or be exact
+            let e = if any_inf || y.repr().is_zero() { Exp::Must } else if ctx_unl { Exp::May } else { Exp::Never };
+            judge(e, fuel, "div", || format!("{:?}", (&x / &y).repr()))
+        }
+        4 => {
+            let e = if x.repr().is_infinite() || (x.repr().sign() == dashu_base::Sign::Negative && !x.repr().is_zero()) || x.precision() == 0 { Exp::Must } else { Exp::Never };
+            let e = if x.precision() == 0 && x.repr().is_zero() { Exp::May } else { e };
+            judge(e, fuel, "sqrt", || format!("{:?}", x.sqrt().repr()))
+        }
+        5 => {
+            let e = if x.repr().is_infinite() || x.precision() == 0 { if x.repr().is_zero() { Exp::May } else { Exp::Must } } else { Exp::Never };
+            // keep the result exponent in range: |x| <= 10^4
+            if x.repr().is_finite() && x.repr().exponent() + x.repr().digits() as isize > 4 {
+                return Ok(());
+            }
+            judge(e, fuel, "exp", || format!("{:?}", x.exp().repr()))
+        }
+        6 => {
+            let nonpos = x.repr().is_zero() || x.repr().sign() == dashu_base::Sign::Negative;
+            let e = if x.repr().is_infinite() || x.precision() == 0 || nonpos { if x.precision() == 0 && x.repr().is_one() { Exp::May } else { Exp::Must } } else { Exp::Never };
+            judge(e, fuel, "ln", || format!("{:?}", x.ln().repr()))
+        }
+        7 => judge(must(x.repr().is_infinite()), fuel, "to_int", || format!("{:?} {:?} {:?} {:?}", x.to_int().value(), x.trunc().repr(), x.floor().repr(), x.round().repr())),
+        8 => judge(Exp::Never, fuel, "compare/format", || format!("{} {:?} {} {}", x, x.partial_cmp(&y), x == y, format!("{:.3}", y).len())),
+        9 => judge(Exp::Never, fuel, "to_f64", || format!("{:?} {:?}", x.to_f64().value(), y.to_f32().value())),
+        10 => {
+            let n = r.range(-40, 40);
+            let zero_neg = x.repr().is_zero() && n < 0;
+            let e = if x.repr().is_infinite() || zero_neg { Exp::Must } else if unlimited && n < 0 { Exp::May } else { Exp::Never };
+            judge(e, fuel, "powi", || format!("{:?}", x.powi(IBig::from(n)).repr()))
+        }
+        11 => {
+            let neg_base = x.repr().sign() == dashu_base::Sign::Negative && !x.repr().is_zero();
+            let trivial = y.repr().is_zero() || y.repr().is_one() || x.repr().is_zero();
+            // the base is checked first (assert_finite), an infinite exponent with a trivial base is answered by a shortcut
+            let e = if x.repr().is_infinite() { Exp::Must } else if any_inf || ctx_unl { Exp::May } else if neg_base && !trivial { Exp::Must } else if neg_base { Exp::May } else { Exp::Never };
+            if y.repr().is_finite() && x.repr().is_finite() && (y.repr().exponent() + y.repr().digits() as isize > 3 || x.repr().exponent().abs() > 60) {
+                return Ok(());
+            }
+            judge(e, fuel, "powf", || format!("{:?}", x.powf(&y).repr()))
+        }
+        12 => {
+            let p2 = r.usize(40);
+            judge(must(x.repr().is_infinite() && false), fuel, "with_precision", || format!("{:?}", x.clone().with_precision(p2).value().repr()))
+        }
+        13 => {
+            // base change: infinities are allowed, unlimited precision may panic when the result is inexact
+            let e = if x.precision() == 0 && !x.repr().is_infinite() { Exp::May } else { Exp::Never };
+            if x.repr().is_finite() && x.repr().exponent().abs() > 300 {
+                return Ok(());
+            }
+            judge(e, fuel, "with_base", || if B == 2 { format!("{:?}", x.clone().with_base::<10>().value().repr()) } else { format!("{:?}", x.clone().with_base::<2>().value().repr()) })
+        }
+        14 => judge(must(any_inf || y.repr().is_zero()), fuel, "rem", || format!("{:?}", (&x % &y).repr())),
+        _ => {
+            // exponent overflow: the exponents add up beyond isize
+            let big = FBig::<Rm, B>::from_parts(IBig::from(3), isize::MAX - 2);
+            let res = judge(Exp::Must, fuel, "exponent overflow", || format!("{:?}", (&big * &big).repr()));
+            match res {
+                // without overflow checks (plain release profile) the exponent addition wraps: recorded finding
+                Err(f) if f.kind == "no_panic" && !cfg!(debug_assertions) => fail_kf("no_panic", f.detail, "KF-C16-exponent-overflow-release"),
+                other => other,
+            }
+        }
+    });
 }
 
 fn case(m: &mut Mon, r: &mut Rng, _idx: u64) {
@@ -247,85 +332,14 @@ fn case(m: &mut Mon, r: &mut Rng, _idx: u64) {
             });
         }
         20..=27 => {
-            // floats: infinities must panic in arithmetic, unlimited precision, domains
-            let (x, y) = (edge_float(r), edge_float(r));
-            let any_inf = x.repr().is_infinite() || y.repr().is_infinite();
-            let which = sel - 20 + 8 * r.below(2);
-            let d = || format!("float op#{} x={:?} (prec {}) y={:?} (prec {})", which, x.repr(), x.precision(), y.repr(), y.precision());
-            let hh = dvh::rng::hash_str(&format!("{:?}{:?}{}", x.repr(), y.repr(), which));
-            let fuel = 200_000 + 4_000 * x.precision().max(y.precision()) as u64;
-            let unlimited = x.precision() == 0 || (which < 4 && x.precision().max(y.precision()) == 0);
-            let ctx_unl = x.precision().max(y.precision()) == 0;
-            m.check("float", &format!("op{}", which), Some(hh), &d, || match which {
-                0 => judge(must(any_inf), fuel, "add", || format!("{:?}", (&x + &y).repr())),
-                1 => judge(must(any_inf), fuel, "sub", || format!("{:?}", (&x - &y).repr())),
-                2 => judge(must(any_inf), fuel, "mul", || format!("{:?}", (&x * &y).repr())),
-                3 => {
-                    // division: by zero and on infinities must panic; at unlimited precision it may panic (inexact) or be exact
-                    let e = if any_inf || y.repr().is_zero() { Exp::Must } else if ctx_unl { Exp::May } else { Exp::Never };
-                    judge(e, fuel, "div", || format!("{:?}", (&x / &y).repr()))
-                }
-                4 => {
-                    let e = if x.repr().is_infinite() || (x.repr().sign() == dashu_base::Sign::Negative && !x.repr().is_zero()) || x.precision() == 0 { Exp::Must } else { Exp::Never };
-                    let e = if x.precision() == 0 && x.repr().is_zero() { Exp::May } else { e };
-                    judge(e, fuel, "sqrt", || format!("{:?}", x.sqrt().repr()))
-                }
-                5 => {
-                    let e = if x.repr().is_infinite() || x.precision() == 0 { if x.repr().is_zero() { Exp::May } else { Exp::Must } } else { Exp::Never };
-                    // keep the result exponent in range: |x| <= 10^4
-                    if x.repr().is_finite() && x.repr().exponent() + x.repr().digits() as isize > 4 {
-                        return Ok(());
-                    }
-                    judge(e, fuel, "exp", || format!("{:?}", x.exp().repr()))
-                }
-                6 => {
-                    let nonpos = x.repr().is_zero() || x.repr().sign() == dashu_base::Sign::Negative;
-                    let e = if x.repr().is_infinite() || x.precision() == 0 || nonpos { if x.precision() == 0 && x.repr().is_one() { Exp::May } else { Exp::Must } } else { Exp::Never };
-                    judge(e, fuel, "ln", || format!("{:?}", x.ln().repr()))
-                }
-                7 => judge(must(x.repr().is_infinite()), fuel, "to_int", || format!("{:?} {:?} {:?} {:?}", x.to_int().value(), x.trunc().repr(), x.floor().repr(), x.round().repr())),
-                8 => judge(Exp::Never, fuel, "compare/format", || format!("{} {:?} {} {}", x, x.partial_cmp(&y), x == y, format!("{:.3}", y).len())),
-                9 => judge(Exp::Never, fuel, "to_f64", || format!("{:?} {:?}", x.to_f64().value(), y.to_f32().value())),
-                10 => {
-                    let n = r.range(-40, 40);
-                    let zero_neg = x.repr().is_zero() && n < 0;
-                    let e = if x.repr().is_infinite() || zero_neg { Exp::Must } else if unlimited && n < 0 { Exp::May } else { Exp::Never };
-                    judge(e, fuel, "powi", || format!("{:?}", x.powi(IBig::from(n)).repr()))
-                }
-                11 => {
-                    let neg_base = x.repr().sign() == dashu_base::Sign::Negative && !x.repr().is_zero();
-                    let trivial = y.repr().is_zero() || y.repr().is_one() || x.repr().is_zero();
-                    // the base is checked first (assert_finite), an infinite exponent with a trivial base is answered by a shortcut
-                    let e = if x.repr().is_infinite() { Exp::Must } else if any_inf || ctx_unl { Exp::May } else if neg_base && !trivial { Exp::Must } else if neg_base { Exp::May } else { Exp::Never };
-                    if y.repr().is_finite() && x.repr().is_finite() && (y.repr().exponent() + y.repr().digits() as isize > 3 || x.repr().exponent().abs() > 60) {
-                        return Ok(());
-                    }
-                    judge(e, fuel, "powf", || format!("{:?}", x.powf(&y).repr()))
-                }
-                12 => {
-                    let p2 = r.usize(40);
-                    judge(must(x.repr().is_infinite() && false), fuel, "with_precision", || format!("{:?}", x.clone().with_precision(p2).value().repr()))
-                }
-                13 => {
-                    // base change: infinities are allowed, unlimited precision may panic when the result is inexact
-                    let e = if x.precision() == 0 && !x.repr().is_infinite() { Exp::May } else { Exp::Never };
-                    if x.repr().is_finite() && x.repr().exponent().abs() > 300 {
-                        return Ok(());
-                    }
-                    judge(e, fuel, "with_base", || format!("{:?}", x.clone().with_base::<2>().value().repr()))
-                }
-                14 => judge(must(any_inf || y.repr().is_zero()), fuel, "rem", || format!("{:?}", (&x % &y).repr())),
-                _ => {
-                    // exponent overflow: the exponents add up beyond isize
-                    let big = F10::from_parts(IBig::from(3), isize::MAX - 2);
-                    let res = judge(Exp::Must, fuel, "exponent overflow", || format!("{:?}", (&big * &big).repr()));
-                    match res {
-                        // without overflow checks (plain release profile) the exponent addition wraps: recorded finding
-                        Err(f) if f.kind == "no_panic" && !cfg!(debug_assertions) => fail_kf("no_panic", f.detail, "KF-C16-exponent-overflow-release"),
-                        other => other,
-                    }
-                }
-            });
+            // floats: infinities must panic in arithmetic, unlimited precision, domains. Four instantiations: the
+            // transcendental functions take different paths for base 2, base 10, other even bases and odd bases
+            match r.below(6) {
+                0 | 1 => float_surface::<mode::HalfAway, 10>(m, r, sel),
+                2 | 3 => float_surface::<mode::Zero, 2>(m, r, sel),
+                4 => float_surface::<mode::HalfEven, 3>(m, r, sel),
+                _ => float_surface::<mode::Up, 16>(m, r, sel),
+            }
         }
         28 | 29 => {
             let s = edge_str(r);
